@@ -102,7 +102,7 @@ def _live_versions(ev, VE, vers):
     live = []
     for name, ver in vers.items():
         ok = True
-        for key, pol in ev.guards:
+        for key, pol, *_ in ev.guards:
             node = flow.KEYNODE.get(key)
             if node is None:
                 continue
